@@ -66,6 +66,14 @@ def gen_mpscr(rng, tier):
         np_ = nprod + (1 if rng.random() < 0.2 else 0)  # sometimes an unused producer slot
         spare = rng.choice([2, 3]) * nprod if rng.random() < 0.7 else rng.choice([0, 1, 2])
         cases.append({"args": [np_, spare, _script(rng, tier, nprod, [1])], "env": sched_env(rng)})
+    # many producer numbers, few threads: the racing producers' numbers are 256 or 65536 apart
+    # (a narrowed index would make them share one sub-queue)
+    for _ in range(n_cases(tier, 40, 400)):
+        stride = rng.choice([256, 256, 255, 257, 512])
+        nprod = rng.choice([2, 2, 3])
+        first = rng.randrange(0, 5)
+        np_ = first + (nprod - 1) * stride + 1 + rng.randrange(0, 3)
+        cases.append({"args": [np_, rng.choice([0, 2, 4]), _script(rng, tier, nprod, [1]), first, stride], "env": sched_env(rng)})
     return cases
 
 
